@@ -231,6 +231,9 @@ class Fn:
         return (t.get("file", self.d["file"]), t.get("ln", self.d["lo"]))
 
 
+_PATH_RX = re.compile(r"[A-Za-z_]\w*(?:::[A-Za-z_]\w*)+")
+
+
 def callee_id(t):
     return t.get("r") or t.get("f") or ""
 
@@ -246,6 +249,7 @@ class Facts:
         self.loaded = []
         self.children = defaultdict(list)  # parent fn id -> closure ids
         self.impls = defaultdict(list)  # trait method id -> impl fn ids
+        self.ext_trait_impls = defaultdict(list)  # self type (ADT path) -> impl fns of traits defined outside the workspace
         for c in crates or CRATES:
             self.load(c)
 
@@ -268,6 +272,10 @@ class Facts:
                     self.children[d["parent"]].append(d["id"])
                 if "impl_of" in d:
                     self.impls[d["impl_of"]].append(d["id"])
+                    if d["impl_of"].split("::", 1)[0] not in CRATES and "self_ty" in d:
+                        base = re.match(r"[&\s]*(?:mut\s+)?([A-Za-z_][\w:]*)", d["self_ty"])
+                        if base:
+                            self.ext_trait_impls[base.group(1)].append(d["id"])
         self.loaded.append(crate)
 
     def fn(self, name, crate=None):
@@ -299,6 +307,12 @@ class Facts:
                 if over_approx_traits and (t.get("unres") or t.get("virt")):
                     for iid in self.impls.get(t.get("f"), ()):
                         out.append((iid, t))
+                if over_approx_traits and cid not in self.fns and "<" in t.get("fn", ""):
+                    # generic library code instantiated with workspace types can call back into the
+                    # workspace only through impls of non-workspace traits for those types
+                    for ty in set(_PATH_RX.findall(t["fn"])):
+                        for iid in self.ext_trait_impls.get(ty, ()):
+                            out.append((iid, t))
                 ops = t.get("a", [])
             for o in ops:
                 if "fn" in o:
